@@ -87,6 +87,17 @@ func (g *Gen) doCall(cc *ssa.CallCommon, pos token.Pos, name string) []string {
 			} else if cl.Call != label && cl.Call != fmtf("%s#%d", label, n) {
 				continue
 			}
+			if cl.After != "" {
+				dominated := false
+				for _, b := range g.callBlocks[cl.After] {
+					if b == g.cur || b.Dominates(g.cur) {
+						dominated = true
+					}
+				}
+				if !dominated {
+					continue
+				}
+			}
 			k++
 			env := g.pointEnv(g.st, g.cur, nil)
 			for i, a := range args {
@@ -106,6 +117,11 @@ func (g *Gen) doCall(cc *ssa.CallCommon, pos token.Pos, name string) []string {
 			g.assume(t)
 		}
 	}
+
+	if g.callBlocks == nil {
+		g.callBlocks = map[string][]*ssa.BasicBlock{}
+	}
+	g.callBlocks[label] = append(g.callBlocks[label], g.cur)
 
 	fc := g.c.contracts[label]
 	callee := cc.StaticCallee()
@@ -173,8 +189,13 @@ func (g *Gen) applyContract(fc *FuncContract, names []string, args []TV, cc *ssa
 			if len(props) == 0 {
 				props = fc.Props
 			}
-			if g.fc != nil && len(g.fc.Props) > 0 {
-				props = unionProps(props, g.fc.Props)
+			if fc.Extern && g.fc != nil {
+				// preconditions of external functions (in-range indices etc.) count toward the
+				// properties the calling function is verified for
+				props = g.fc.Props
+				if g.fc.NoPanic && len(g.fc.NoPanicProps) > 0 {
+					props = unionProps(props, g.fc.NoPanicProps)
+				}
 			}
 			g.oblige("pre", fmtf("%s/pre@%s#%d.%d", g.fnLabel(), label, n, k), t, props, cl.Text, pos)
 		}
